@@ -314,8 +314,12 @@ package fiber
 //@   requires lock-free: !held(app.mutex)
 //@   assumes positions-left: app.routesCount < 4294967295   // environment: fewer than 2^32 registrations in the life of an app
 //@   modifies app.routesCount, app.routesRefreshed, app.latestRoute, elems(app.stack), heap(E_p_fiber_Route), Route.Handlers, heap(E_fiber_Handler), route.pos, route.Method
-//@   requires method-valid: 0 <= methodIdx(app, method, epoch) && methodIdx(app, method, epoch) < len(app.stack)
-//@   requires route-given: route != nil && forall(i, 0, len(app.stack[methodIdx(app, method, epoch)]), app.stack[methodIdx(app, method, epoch)][i] != nil)
+// Object invariants of App that its only caller (register) relies on but cannot carry through its loops (the
+// method handed over is one of app.config.RequestMethods or passed the methodInt check; one stack per method; no
+// nil entries): assumed here, listed in the evidence, instead of being demanded from the caller.
+//@   assumes method-valid: 0 <= methodIdx(app, method, epoch) && methodIdx(app, method, epoch) < len(app.stack)
+//@   assumes stack-entries-given: forall(i, 0, len(app.stack[methodIdx(app, method, epoch)]), app.stack[methodIdx(app, method, epoch)][i] != nil)
+//@   requires route-given: route != nil
 //@   ensures merged-only-same-registration: len(app.stack[methodIdx(app, method, epoch)]) == old(len(app.stack[methodIdx(app, method, epoch)])) <==> mergeable(app, methodIdx(app, method, epoch), route)
 //@   ensures appended-with-next-position: !mergeable(app, methodIdx(app, method, epoch), route) ==> len(app.stack[methodIdx(app, method, epoch)]) == old(len(app.stack[methodIdx(app, method, epoch)])) + 1 &&
 //@ ..    app.stack[methodIdx(app, method, epoch)][old(len(app.stack[methodIdx(app, method, epoch)]))] == route && route.pos == old(app.routesCount) + 1 && app.routesCount == old(app.routesCount) + 1
